@@ -797,7 +797,9 @@ impl RuleCatalog {
         let content = serde_json::to_string_pretty(&catalog_file)
             .map_err(|e| format!("Failed to serialize catalog: {e}"))?;
 
-        fs::write(&self.catalog_path, content)
+        // Atomic replace: a crash while saving must leave the old or the new catalog. A plain
+        // `fs::write` truncates first, and a truncated catalog makes the whole store unopenable.
+        crate::storage::metadata::write_file_atomic(&self.catalog_path, content.as_bytes())
             .map_err(|e| format!("Failed to write catalog: {e}"))?;
 
         self.dirty = false;
